@@ -8,11 +8,13 @@ PROP = "C04"
 def plans(tier):
     s = vlib.seed()
     if tier == "quick":
-        return [dict(gens="star,hole,collapse", variants="base", n=500, W=8, nmax=12, bias=0.5, seed=s),
-                dict(gens="star,hole", variants="base", n=300, W=10, nmax=10, bias=0.4, seed=s + 1)]
-    return [dict(gens="star,hole,collapse", variants="base", n=12000, W=8, nmax=16, bias=0.5, seed=s),
+        return [dict(gens="star,hole,collapse,rect", variants="base", n=650, W=8, nmax=12, bias=0.5, seed=s),
+                dict(gens="star,hole", variants="base", n=300, W=10, nmax=10, bias=0.4, seed=s + 1),
+                dict(gens="collapse", variants="base", n=300, W=16, nmax=10, bias=0.4, seed=s + 2)]
+    return [dict(gens="star,hole,collapse,rect", variants="base", n=16000, W=8, nmax=16, bias=0.5, seed=s),
             dict(gens="star,hole", variants="base", n=6000, W=10, nmax=12, bias=0.4, seed=s + 1),
-            dict(gens="collapse,hole", variants="base", n=6000, W=6, nmax=12, bias=0.7, seed=s + 2)]
+            dict(gens="collapse,hole", variants="base", n=6000, W=6, nmax=12, bias=0.7, seed=s + 2),
+            dict(gens="collapse", variants="base", n=6000, W=16, nmax=10, bias=0.4, seed=s + 3)]
 
 
 def run(tier):
